@@ -34,7 +34,11 @@ pub fn desc<T: Subj>() -> Desc {
 /// target's MIN-1, MIN, MAX, MAX+1 for both signednesses) embedded in the source type
 pub fn source_values(s: &Desc, tier: Tier, tbits: u32) -> Vec<Vec<u8>> {
     let bits = s.bits;
-    let mut v: Vec<Vec<u8>> = if bits <= 16 { sets::full(bits) } else { sets::structured(s.digit_bits, s.n, tier) };
+    if full_source(s, tier) {
+        // the complete value space contains every directed value already
+        return sets::full(bits);
+    }
+    let mut v: Vec<Vec<u8>> = sets::structured(s.digit_bits, s.n, tier);
     let nb = (bits / 8) as usize;
     let sti = TypeInfo { bits, signed: s.signed };
     let mut push = |x: BigRef| {
@@ -50,6 +54,11 @@ pub fn source_values(s: &Desc, tier: Tier, tbits: u32) -> Vec<Vec<u8>> {
         }
     }
     sets::dedup(v)
+}
+
+/// is the source type enumerated completely?  (16 bits; 24 bits in the thorough tier)
+pub fn full_source(s: &Desc, tier: Tier) -> bool {
+    s.bits <= 16 || (s.bits <= 24 && tier == Tier::Thorough)
 }
 
 pub type PairFn<'a> = &'a (dyn Fn(&[u8]) -> (Expect<Z>, Obs<Z>) + Sync);
@@ -73,17 +82,45 @@ pub fn drive_dyn(run: &mut Run, s: &Desc, t: &Desc, op: &str, f: PairFn) {
     if run.in_replay() || !run.wants_prefix(&config) {
         return;
     }
-    let vals = source_values(s, run.tier, t.bits);
-    let mut l = Local::default();
-    l.slot = vengine::crumbs::claim("custom", "custom");
-    for b in &vals {
-        l.enter(&config, op, || vec![hex(b)], 0);
-        let (e, o) = guarded(f, b);
-        l.check(&config, op, || vec![hex(b)], 0, &e, &o);
-    }
-    vengine::crumbs::release(l.slot);
-    l.slot = None;
-    run.merge(&config, "values", op, vals.len() as u64, l);
+    let cfg = config.clone();
+    let (l, n) = if s.bits == 24 && full_source(s, run.tier) {
+        // 2^24 values: enumerated numerically, never materialised
+        let n = 1usize << 24;
+        let l = vengine::par_chunks(run.threads, n, |lo, hi, l| {
+            for v in lo..hi {
+                let b = &(v as u32).to_le_bytes()[..3];
+                l.enter(&cfg, op, || vec![hex(b)], 0);
+                let (e, o) = guarded(f, b);
+                l.check(&cfg, op, || vec![hex(b)], 0, &e, &o);
+            }
+        });
+        (l, n)
+    } else {
+        let vals = source_values(s, run.tier, t.bits);
+        let n = vals.len();
+        let l = if n >= 8192 {
+            vengine::par_chunks(run.threads, n, |lo, hi, l| {
+                for b in &vals[lo..hi] {
+                    l.enter(&cfg, op, || vec![hex(b)], 0);
+                    let (e, o) = guarded(f, b);
+                    l.check(&cfg, op, || vec![hex(b)], 0, &e, &o);
+                }
+            })
+        } else {
+            let mut l = Local::default();
+            l.slot = vengine::crumbs::claim("custom", "custom");
+            for b in &vals {
+                l.enter(&config, op, || vec![hex(b)], 0);
+                let (e, o) = guarded(f, b);
+                l.check(&config, op, || vec![hex(b)], 0, &e, &o);
+            }
+            vengine::crumbs::release(l.slot);
+            l.slot = None;
+            l
+        };
+        (l, n)
+    };
+    run.merge(&config, "values", op, n as u64, l);
 }
 
 pub fn drive<S: Subj, T: Subj>(run: &mut Run, op: &str, f: impl Fn(S) -> (Expect<Z>, Obs<Z>) + Sync) {
